@@ -256,6 +256,10 @@ func genC02Value(t *rapid.T) m.Packet {
 // 16-bit length field can describe (65536 words).
 func c02MaxSizeValues() []m.Packet {
 	unknown := m.XRBlock{BT: 99, TypeSpecific: 1, Body: make([]byte, 262144-8-4)}
+	maxReports := make([]m.RBlock, 31)
+	for i := range maxReports {
+		maxReports[i] = m.RBlock{SSRC: uint32(100 + i), Fraction: uint8(i), Lost: uint32(i) << 12, LastSeq: uint32(i), Jitter: 5, LSR: 6, DLSR: 7}
+	}
 	// CCFB: 12 + sum(8 + 2n) octets; 7 x 16384 + 16346 metric blocks = 262144 octets
 	ccfb := &m.CCFB{Sender: 1, Timestamp: 2}
 	for b := 0; b < 8; b++ {
@@ -324,6 +328,8 @@ func c02MaxSizeValues() []m.Packet {
 		{Kind: m.KAPP, APP: &m.APP{Subtype: 3, SSRC: 9, Name: []byte("abcd"), Data: make([]byte, 65523)}},
 		{Kind: m.KSR, SR: &m.SR{SSRC: 1, Ext: make([]byte, 262144-28)}},
 		{Kind: m.KRR, RR: &m.RR{SSRC: 1, Ext: make([]byte, 262144-8)}},
+		{Kind: m.KSR, SR: &m.SR{SSRC: 1, Reports: maxReports, Ext: make([]byte, 262144-28-31*24)}},
+		{Kind: m.KRR, RR: &m.RR{SSRC: 1, Reports: maxReports, Ext: make([]byte, 262144-8-31*24)}},
 		{Kind: m.KXR, XR: &m.XR{Sender: 1, Blocks: []m.XRBlock{unknown}}},
 		{Kind: m.KRAW, RAW: append([]byte{0x80, 192, 0xFF, 0xFF}, make([]byte, 262140)...)},
 	}
